@@ -482,9 +482,10 @@ func (w *World) mutateChildInIteration(in atree.Value, ch *MCont, salt int) *Vio
 				return w.viol("iter.mutation", "setting into child #%d obtained from a mutable iterator failed: %v", ch.CID, err)
 			}
 			if idx := ch.findKey(km); idx >= 0 {
+				oldv := ch.Vals[idx]
 				ch.Vals[idx] = MStr(s)
-				if err := w.disposeStorable(old); err != nil {
-					return w.viol("dispose", "%v", err)
+				if vv := w.detached(oldv, old, false); vv != nil {
+					return vv
 				}
 			} else {
 				ch.Keys = append(ch.Keys, km)
